@@ -1,15 +1,31 @@
 #!/bin/bash
-# tools/mutant_run.sh <patch> <prop> [<prop>…] : apply a property-breaking patch to /repo's working tree,
-# run the quick checks named, restore the tree. Prints one line per property.
+# tools/mutant_run.sh <patch> <prop> [<prop>…] : apply a property-breaking patch to a scratch worktree of /repo's
+# HEAD (under /tmp, removed afterwards), run the quick checks named against that scratch tree
+# (VERIF_REPO / VERIF_BUILD redirect the framework; /repo itself and /verif/evidence are not touched, so several
+# evaluations can run side by side). Prints one line per property. MUTANT_IN_REPO=1 applies the patch to /repo's
+# working tree instead (and restores it), exactly as the registered checks would see it.
 set -u
 patch=$(readlink -f "$1"); shift
-cd /repo || exit 2
-if ! git diff --quiet; then echo "repo working tree not clean"; exit 2; fi
-if ! git apply "$patch"; then echo "patch does not apply: $patch"; exit 2; fi
-trap 'git -C /repo checkout -- . ; git -C /repo clean -fdq' EXIT
-if ! (cd /repo && go build ./... ) ; then echo "MUTANT-DOES-NOT-BUILD $patch"; exit 2; fi
+if [ "${MUTANT_IN_REPO:-}" = 1 ]; then
+  cd /repo || exit 2
+  if ! git diff --quiet; then echo "repo working tree not clean"; exit 2; fi
+  if ! git apply "$patch"; then echo "patch does not apply: $patch"; exit 2; fi
+  trap 'git -C /repo checkout -- . ; git -C /repo clean -fdq' EXIT
+  tree=/repo; build=""
+else
+  tree=$(mktemp -d /tmp/mut-XXXXXX); rmdir "$tree"
+  git -C /repo worktree add -q --detach "$tree" HEAD || exit 2
+  build="$tree.build"
+  trap 'git -C /repo worktree remove --force "$tree" 2>/dev/null; rm -rf "$tree" "$build"' EXIT
+  if ! git -C "$tree" apply "$patch"; then echo "patch does not apply: $patch"; exit 2; fi
+fi
+if ! (cd "$tree" && GOFLAGS=-mod=mod GOPROXY=off go build ./... ) ; then echo "MUTANT-DOES-NOT-BUILD $patch"; exit 2; fi
 for p in "$@"; do
-  out=$(cd /verif && VERIF_SCALE_PCT=${VERIF_SCALE_PCT:-100} ./check $p quick 2>&1); code=$?
+  if [ -n "$build" ]; then
+    out=$(cd /verif && VERIF_REPO="$tree" VERIF_BUILD="$build" VERIF_WORKERS=${VERIF_WORKERS:-16} VERIF_SCALE_PCT=${VERIF_SCALE_PCT:-100} ./check $p quick 2>&1); code=$?
+  else
+    out=$(cd /verif && VERIF_SCALE_PCT=${VERIF_SCALE_PCT:-100} ./check $p quick 2>&1); code=$?
+  fi
   nv=$(echo "$out" | grep -c '^VIOLATION')
   keys=$(echo "$out" | grep '^finding' | sed 's/^finding \([^:]*\):.*/\1/' | head -4 | tr '\n' ' ')
   echo "$(basename $patch) $p exit=$code violations=$nv $keys"
